@@ -87,6 +87,18 @@ def _print_Piecewise(
         else:
             return printer._print(cond)
 
+    def evaluate_numbers(cond):
+        """Unevaluated products of numbers in a condition (e.g. ``x >= -1*40.0``)
+        make sympy.simplify change the condition (``x > -1*40.0``) or fail."""
+        return cond.replace(
+            lambda e: isinstance(e, sympy.Mul) and all(a.is_Number for a in e.args),
+            lambda e: sympy.Mul(*e.args),
+        )
+
+    expr = sympy.Piecewise(
+        *[(arg.expr, evaluate_numbers(arg.cond)) for arg in expr.args], evaluate=False
+    )
+
     try:
         simplified = sympy.simplify(expr)
     except Exception:
